@@ -278,9 +278,10 @@ CLAIMED = {
              "duplicates removed and exactly one apex SOA, the last; a zone representing a flat zone answers as RFC 1034 4.3.2 on "
              "it (from C02's refinement theorem). Model tied to the Rust code by a differential stream that writes generated "
              "configurations to disk and loads them with the real resolved::fs::load_zone_configuration.",
-        note="ONE link is proved only relative to an explicit premise (theorem C12_zone_is_chain_of_files_partial): that the record "
-             "tree after Zone::merge represents the flat merge of the two operands' flat zones (the lemma planned for "
-             "Zone/ZoneMergeProofs.v). The stream's oracle checks the composed statement (dump = union, one SOA, answers from the "
+        note="The link from the record tree to the flat merge (C12_zone_is_chain_of_files) is closed with "
+             "Zone/ZoneMergeProofs.v (zone_merge_repr, under the tree invariant 'unique child labels', which every zone built by "
+             "insertion has); the earlier premise-carrying form is kept as C12_zone_is_chain_of_files_partial. "
+             "The stream's oracle also checks the composed statement (dump = union, one SOA, answers from the "
              "union) on every generated configuration. Files are already-parsed data in the model (text <-> data is C11/C14); the "
              "file system is assumed not to change during one load; symlinks other than dangling ones and a file used in both "
              "roles are outside the generated inputs.",
